@@ -96,7 +96,7 @@ def S_engine(monitor, extra=(), name="engine", n=(150, 1500), seed_off=0):
 
 
 def S_prompt(pid):
-    return {"name": "prompt", "harness": lambda t, s: ["prompt", "-n", "10" if t == "quick" else "40", "-seed", str(s)],
+    return {"name": "prompt", "harness": lambda t, s: ["prompt", "-n", "12" if t == "quick" else "48", "-seed", str(s)],
             "driver": None, "monitor": M.mon_prompt(pid), "nontrivial": lambda c: True,
             "sample": lambda c: {"id": c.get("id"), "shape": c.get("shape"), "workflow_yaml": c.get("yaml", "")[-500:], "result": c.get("result"),
                                  "wall_ms": c.get("wall_ms")}}
@@ -235,7 +235,10 @@ PROPS = {
         "pins": RUNLOOP_PINS + RESOLVE_PINS,
         "streams": [S_loop(), S_engine(M.mon_c07_evalfail, extra=["-evalfail"], name="engine-evalfail", n=(250, 2500), seed_off=19),
                     # a failure that happens while the caller has cancelled the run still surfaces as an error
-                    S_engine(M.both(M.mon_c07_engine, M.result_shape("C07")), extra=["-cancel", "random"], name="engine-cancel", n=(60, 600), seed_off=29)],
+                    S_engine(M.both(M.mon_c07_engine, M.result_shape("C07")), extra=["-cancel", "random"], name="engine-cancel", n=(60, 600), seed_off=29),
+                    # every step output is logged (config.LoggedOutputConfigs): plugin outputs (maps), engine-generated ones
+                    # (deploy_failed / crashed: structs), long texts - rendering an output for the log must not crash the run
+                    S_engine(M.both(M.mon_c07_engine, M.result_shape("C07")), extra=["-slowlog", "1"], name="engine-logged", n=(60, 600), seed_off=37)],
         "rule": LOOP_RULE + "; " + ENGINE_RULE + " with expressions that fail at run time (absent optional input, index out of range, "
                 "failing conversion, division by zero); a process crash of the harness is a violation",
     },
